@@ -209,6 +209,7 @@ func (w *World) loadPtr(st *State, v *Val, ptrT types.Type) *Val {
 		t := w.loadLoc(st, l)
 		out := &Val{T: w.sc.define("ld", t), Typ: et}
 		w.assumeLoaded(st, out)
+		w.dataInvAssume(st, l, out)
 		if l.kind == "field" && len(l.path) == 0 && w.topEntry != nil {
 			// a field that has not been written since the function was entered holds what it held then: a
 			// reference to an object that existed at entry
@@ -427,6 +428,9 @@ func (w *World) execInstr(fr *Frame, st *State, ins ssa.Instruction) {
 		if v.T.S == "" {
 			unsupported("store of an address-only value (%s) in %s", ins.Val.Name(), fr.fn.Name())
 		}
+		if addr.Loc == nil {
+			w.derefPoint(fr, st, addr.T, "nil dereference", ins.Pos())
+		}
 		if ia, ok := ins.Addr.(*ssa.IndexAddr); ok {
 			if _, isSlice := ia.X.Type().Underlying().(*types.Slice); isSlice {
 				w.atAsserts(fr, st, "elemstore", ins, map[string]*Val{"value": v, "index": w.val(fr, st, ia.Index), "slice": w.val(fr, st, ia.X)})
@@ -450,6 +454,9 @@ func (w *World) execInstr(fr *Frame, st *State, ins ssa.Instruction) {
 			for i := 0; i < stt.NumFields(); i++ {
 				w.loopWriteCheck(fr, st, w.fieldKey(et, i), addr.T)
 			}
+		}
+		if addr.Loc != nil {
+			w.dataInvStore(fr, st, addr.Loc, v)
 		}
 		w.storePtr(st, addr, ins.Addr.Type(), v)
 		// keep static knowledge about function values held in locals
@@ -476,6 +483,7 @@ func (w *World) execInstr(fr *Frame, st *State, ins ssa.Instruction) {
 			l.path = append(append([]pathStep{}, l.path...), pathStep{field: ins.Field, typ: ft})
 			fr.vals[ins] = &Val{Typ: ins.Type(), Loc: &l}
 		} else {
+			w.derefPoint(fr, st, x.T, "nil dereference", ins.Pos())
 			fr.vals[ins] = &Val{Typ: ins.Type(), Loc: &Loc{kind: "field", base: x.T, styp: styp, field: ins.Field, rootT: ft}}
 		}
 	case *ssa.Field:
@@ -491,6 +499,9 @@ func (w *World) execInstr(fr *Frame, st *State, ins ssa.Instruction) {
 			fr.vals[ins] = &Val{T: sel(x.T, i), Typ: ins.Type()}
 		default:
 			// string index
+			if w.safetyFull(fr) {
+				w.panicPoint(fr, st, or(lt(i, intLit(0)), le(mk(SInt, "str.len", x.T), i)), "index out of range", ins.Pos())
+			}
 			fr.vals[ins] = &Val{T: mk(SInt, "str.to_code", mk(SString, "str.at", x.T, i)), Typ: ins.Type()}
 			w.assumption("string bytes are code points < 256 (non-ASCII text is not modelled byte-exactly)")
 		}
@@ -500,6 +511,7 @@ func (w *World) execInstr(fr *Frame, st *State, ins ssa.Instruction) {
 		m := w.term(fr, st, ins.Map)
 		mt := ins.Map.Type().Underlying().(*types.Map)
 		w.guardCheck(fr, st, ins.Map.Type(), m, true)
+		w.derefPoint(fr, st, m, "write to nil map", ins.Pos())
 		w.atAsserts(fr, st, "mapupdate", ins, map[string]*Val{"key": w.val(fr, st, ins.Key), "value": w.val(fr, st, ins.Value), "map": w.val(fr, st, ins.Map)})
 		{
 			dk, vk := w.mapKeys(w.sortOf(mt.Key()), w.sortOf(mt.Elem()))
@@ -671,6 +683,9 @@ func (w *World) execUnOp(fr *Frame, st *State, ins *ssa.UnOp) {
 				}
 			}
 		}
+		if x.Loc == nil {
+			w.derefPoint(fr, st, x.T, "nil dereference", ins.Pos())
+		}
 		v := w.loadPtr(st, x, ins.X.Type())
 		// recover static knowledge about function values
 		if fv, ok := w.closures[v.T.S]; ok && fv != nil {
@@ -807,6 +822,9 @@ func (w *World) execIndexAddr(fr *Frame, st *State, ins *ssa.IndexAddr) {
 	}
 	switch t := ins.X.Type().Underlying().(type) {
 	case *types.Slice:
+		if w.safetyFull(fr) {
+			w.panicPoint(fr, st, or(lt(i, intLit(0)), le(slen(x.T), i)), "index out of range", ins.Pos())
+		}
 		fr.vals[ins] = &Val{Typ: ins.Type(), Loc: &Loc{kind: "elem", base: sarr(x.T), idx: add(soff(x.T), i), rootT: t.Elem()}}
 	case *types.Pointer:
 		at := t.Elem().Underlying().(*types.Array)
@@ -1086,6 +1104,9 @@ func (w *World) execSlice(fr *Frame, st *State, ins *ssa.Slice) {
 		} else {
 			hi = mk(SInt, "str.len", x.T)
 		}
+		if w.safetyFull(fr) {
+			w.panicPoint(fr, st, or(lt(lo, intLit(0)), lt(hi, lo), lt(mk(SInt, "str.len", x.T), hi)), "slice bounds out of range", ins.Pos())
+		}
 		fr.vals[ins] = &Val{T: w.sc.define("substr", mk(SString, "str.substr", x.T, lo, sub(hi, lo))), Typ: ins.Type()}
 	case *types.Slice:
 		if ins.High != nil {
@@ -1096,6 +1117,9 @@ func (w *World) execSlice(fr *Frame, st *State, ins *ssa.Slice) {
 		cp := sub(scap(x.T), lo)
 		if ins.Max != nil {
 			cp = sub(w.term(fr, st, ins.Max), lo)
+		}
+		if w.safetyFull(fr) {
+			w.panicPoint(fr, st, or(lt(lo, intLit(0)), lt(hi, lo), lt(scap(x.T), hi)), "slice bounds out of range", ins.Pos())
 		}
 		fr.vals[ins] = &Val{T: w.sc.define("slice", mk(SSlice, "mkSlice", sarr(x.T), add(soff(x.T), lo), sub(hi, lo), cp)), Typ: ins.Type()}
 	case *types.Pointer:
@@ -1214,12 +1238,188 @@ func (w *World) execTypeAssert(fr *Frame, st *State, ins *ssa.TypeAssert) {
 // panicPoint records a possible run-time panic. Outside "safety on"
 // functions the absence of implicit panics is an assumption.
 func (w *World) panicPoint(fr *Frame, st *State, cond Term, what string, pos token.Pos) {
-	if fr.top && fr.contract != nil && fr.contract.Opts["safety"] == "on" {
+	if fr.top && fr.contract != nil && (fr.contract.Opts["safety"] == "on" || fr.contract.Opts["safety"] == "full") {
 		w.callOrd["panic:"+what]++
-		w.oblige("nopanic", fmt.Sprintf("nopanic.%s.%d", strings.ReplaceAll(what, " ", "-"), w.callOrd["panic:"+what]), st.cond, not(cond), true, fr.contract.Props)
+		o := w.oblige("nopanic", fmt.Sprintf("nopanic.%s.%d", strings.ReplaceAll(what, " ", "-"), w.callOrd["panic:"+what]), st.cond, not(cond), true, fr.contract.Props)
+		if pos.IsValid() {
+			p := w.l.Prog.Fset.Position(pos)
+			o.Src = fmt.Sprintf("%s:%d:%d", p.Filename, p.Line, p.Column)
+		}
+		// execution only continues when the instruction did not panic
+		w.sc.assume(implies(st.cond, not(cond)))
 		return
 	}
 	w.assumption("implicit run-time panics (nil dereference, index, failed type assertion) do not occur in functions without 'opt safety on'")
+}
+
+// dataInvName names the location class a data invariant is declared for: "T.f" for a field of a named struct,
+// "elems(T)" for the elements of a []T (T written as in the package that declares the invariant).
+func (w *World) dataInvName(l *Loc) (name string, pkg string, ok bool) {
+	switch l.kind {
+	case "field":
+		if len(l.path) != 0 {
+			return "", "", false
+		}
+		n, isNamed := l.styp.(*types.Named)
+		if !isNamed || n.Obj().Pkg() == nil {
+			return "", "", false
+		}
+		return n.Obj().Name() + "." + l.styp.Underlying().(*types.Struct).Field(l.field).Name(), n.Obj().Pkg().Path(), true
+	case "elem":
+		if len(l.path) != 0 || l.rootT == nil {
+			return "", "", false
+		}
+		var p *types.Package
+		t := l.rootT
+		if pt, isPtr := t.(*types.Pointer); isPtr {
+			t = pt.Elem()
+		}
+		if n, isNamed := t.(*types.Named); isNamed {
+			p = n.Obj().Pkg()
+		}
+		if p == nil {
+			return "", "", false
+		}
+		return "elems(" + types.TypeString(l.rootT, func(q *types.Package) string {
+			if q == p {
+				return ""
+			}
+			return q.Name()
+		}) + ")", p.Path(), true
+	}
+	return "", "", false
+}
+
+// allocatesLike reports whether the function under verification itself creates objects of the invariant's class
+// (a struct of that type, or a backing array of that element type): then only objects that existed when it was
+// entered are assumed to satisfy the invariant.
+func (w *World) allocatesLike(fn *ssa.Function, l *Loc) bool {
+	key := fn.String() + "|" + l.kind + "|" + l.typ().String()
+	if l.kind == "field" {
+		key = fn.String() + "|field|" + l.styp.String()
+	}
+	if v, ok := w.allocMemo[key]; ok {
+		return v
+	}
+	res := false
+	var visit func(f *ssa.Function)
+	visit = func(f *ssa.Function) {
+		for _, b := range f.Blocks {
+			for _, ins := range b.Instrs {
+				switch x := ins.(type) {
+				case *ssa.Alloc:
+					et := deref(x.Type())
+					if l.kind == "field" && types.Identical(et, l.styp) {
+						res = true
+					}
+					if at, ok := et.Underlying().(*types.Array); ok && l.kind == "elem" && types.Identical(at.Elem(), l.rootT) {
+						res = true
+					}
+				case *ssa.MakeSlice:
+					if l.kind == "elem" && types.Identical(x.Type().Underlying().(*types.Slice).Elem(), l.rootT) {
+						res = true
+					}
+				case *ssa.Call:
+					if b, ok := x.Call.Value.(*ssa.Builtin); ok && b.Name() == "append" && l.kind == "elem" {
+						if sl, ok := x.Type().Underlying().(*types.Slice); ok && types.Identical(sl.Elem(), l.rootT) {
+							res = true
+						}
+					}
+				}
+			}
+		}
+		for _, a := range f.AnonFuncs {
+			visit(a)
+		}
+	}
+	visit(fn)
+	if w.allocMemo == nil {
+		w.allocMemo = map[string]bool{}
+	}
+	w.allocMemo[key] = res
+	return res
+}
+
+func (w *World) dataInvsFor(l *Loc) []*DataInv {
+	if len(w.specs.DataInvs) == 0 {
+		return nil
+	}
+	name, pkg, ok := w.dataInvName(l)
+	if !ok {
+		return nil
+	}
+	var out []*DataInv
+	for _, d := range w.specs.DataInvs {
+		if d.Field == name && d.Pkg == pkg {
+			out = append(out, d)
+		}
+	}
+	return out
+}
+
+// dataInvAssume: a value read from a field (element) that carries a data invariant satisfies it, when the
+// function under verification runs under `opt safety full` and did not create the object itself.
+func (w *World) dataInvAssume(st *State, l *Loc, v *Val) {
+	top := w.topFrame
+	if top == nil || top.contract == nil || top.contract.Opts["safety"] != "full" || w.inDataInv {
+		return
+	}
+	invs := w.dataInvsFor(l)
+	if len(invs) == 0 {
+		return
+	}
+	guard := st.cond
+	if w.allocatesLike(top.fn, l) && w.topEntry != nil {
+		guard = and(st.cond, le(l.base, w.hget(w.topEntry, allocKey)))
+	}
+	w.inDataInv = true
+	defer func() { w.inDataInv = false }()
+	for _, d := range invs {
+		env := w.contractEnv(top, st, top.entry)
+		env.vars["value"] = v
+		env.vars["object"] = &Val{T: l.base, Typ: types.NewPointer(l.styp)}
+		if l.kind == "elem" {
+			env.vars["object"] = &Val{T: l.base, Typ: types.Typ[types.Int]}
+		}
+		w.sc.assume(implies(guard, w.evalBool(env, d.Expr)))
+		w.assumption(fmt.Sprintf("data invariant %s %s (%s) of the design model holds for objects the function did not create", d.Field, d.Label, d.Src))
+	}
+}
+
+// dataInvStore: a store to a field (element) that carries a data invariant establishes it (obligation of
+// functions under `opt safety full`).
+func (w *World) dataInvStore(fr *Frame, st *State, l *Loc, v *Val) {
+	if !w.safetyFull(fr) || l == nil {
+		return
+	}
+	for _, d := range w.dataInvsFor(l) {
+		env := w.contractEnv(fr, st, fr.entry)
+		env.vars["value"] = v
+		env.vars["object"] = &Val{T: l.base, Typ: types.NewPointer(l.styp)}
+		if l.kind == "elem" {
+			env.vars["object"] = &Val{T: l.base, Typ: types.Typ[types.Int]}
+		}
+		w.callOrd["datainv:"+d.Field+d.Label]++
+		w.inDataInv = true
+		g := w.evalBool(env, d.Expr)
+		w.inDataInv = false
+		w.oblige("datainv", fmt.Sprintf("datainv.%s.%s.%d", d.Field, d.Label, w.callOrd["datainv:"+d.Field+d.Label]), st.cond, g, true, fr.contract.Props)
+	}
+}
+
+// safetyFull says whether the function under verification asked for the memory-safety obligations as well
+// (nil dereference, index and slice bounds, write to a nil map, method call on a nil interface). They are
+// generated for the function's own instructions, not for helpers inlined into it.
+func (w *World) safetyFull(fr *Frame) bool {
+	return fr.top && fr.contract != nil && fr.contract.Opts["safety"] == "full" && w.muted == 0
+}
+
+// derefPoint: the pointer (map, interface tag) term must not be nil here.
+func (w *World) derefPoint(fr *Frame, st *State, ref Term, what string, pos token.Pos) {
+	if !w.safetyFull(fr) || ref.S == "" {
+		return
+	}
+	w.panicPoint(fr, st, eq(ref, intLit(0)), what, pos)
 }
 
 // ---------------------------------------------------------------------
